@@ -566,6 +566,25 @@ func (o *Object) Reverse() {
 	}
 }
 
+// SetOffset moves the container as a whole; false for multi.Set, which has no such method.
+func (o *Object) SetOffset(off int) bool {
+	switch {
+	case o.LSeq != nil:
+		o.LSeq.SetOffset(off)
+	case o.LQSeq != nil:
+		o.LQSeq.SetOffset(off)
+	case o.ASeq != nil:
+		o.ASeq.SetOffset(off)
+	case o.AQSeq != nil:
+		o.AQSeq.SetOffset(off)
+	case o.Multi != nil:
+		o.Multi.SetOffset(off)
+	default:
+		return false
+	}
+	return true
+}
+
 // Clone returns a library-level clone of the container.
 func (o *Object) Clone() *Object {
 	c := &Object{Kind: o.Kind, Alpha: o.Alpha}
